@@ -3,6 +3,7 @@ import TracklibVerif.Lemmas.MapMatchViterbi
 import TracklibVerif.Lemmas.MapMatchCompose
 import TracklibVerif.Lemmas.MapMatchZ
 import TracklibVerif.Lemmas.MapMatchTotal
+import TracklibVerif.Lemmas.MapMatchIndexSound
 /-! # C10 — map-matched positions lie on a real edge within the search radius
 
 Property theorems only (helpers in `Lemmas/MapMatch.lean`, `Lemmas/MapMatchSound.lean`, `Lemmas/MapMatchNet.lean`,
@@ -36,7 +37,7 @@ distance or an exception (T18); the flag state carries the observation's own pos
 geometries with their altitudes as given (T20).
 
 Exceptions (`ZeroDivisionError` of the projection on a vertical segment, D16; `UnboundLocalError` on a candidate edge all of
-whose vertices coincide): Parts I–IV are about a call that returns; Part V (T22–T23) says when it does: on a network none of
+whose vertices coincide): Parts I–IV are about a call that returns; Part V (T22–T25) says when it does: on a network none of
 whose edge geometries has a kept vertical segment and each of which has a kept segment (`GoodGeom`), for every answer of the
 index made of existing edge numbers and every decoder answering in-range indices, nothing is raised. -/
 namespace TV.C10
@@ -701,6 +702,65 @@ theorem states_returned_3d {sqrt : α → α} (hs : SqrtSpec sqrt) (eps radius :
     (pos : P3 α) (cand : Option (List Nat)) (hc : ∀ E, cand = some E → ∀ n ∈ E, n < edges.length) :
     ∃ l, obsStates3 sqrt eps radius edges pos cand = .ok l :=
   obsStates3_total hs eps radius edges hcurv hgood pos cand hc
+
+/-- T24 `candidates_are_edge_numbers`: on a network built by `addEdge` calls with pairwise different edge ids (index attached
+before or after the last edges) every number the spatial index answers for an observation is the number of an existing edge:
+the grid only ever stores feature numbers handed to `addFeature` — by the constructor (`0 … size-1`) or by `addEdge`
+(`getNumberOfEdges() - 1`) —, so `EDGES[getEdgeId(elem)]` in the candidate loop raises neither `IndexError` nor `KeyError`. -/
+theorem candidates_are_edge_numbers (fl : α → Int) (es : List (EdgeIn α × Node α × Node α)) (late : Nat) (res : Option (α × α))
+    (margin : α) (net : Net α) (hnd : (es.map (fun x => x.1.id)).Nodup) (h : buildNet fl es late res margin = .ok net)
+    (radius : α) (pos : α × α) (E : List Nat) (hc : candidatesOf fl radius net pos = .ok (some E)) :
+    ∀ n ∈ E, n < (netEdges net).length ∧ ∃ eg, (netEdges net)[n]? = some eg := by
+  intro n hn
+  have hlt := candidates_exist fl es late res margin net hnd h radius pos E hc n hn
+  exact ⟨hlt, _, List.getElem?_eq_getElem hlt⟩
+
+/-- T25 `states_returned_on_built_network`: on a network built from `computeAbsCurv`-made edges with pairwise different ids whose
+geometries are regular (`GoodGeom`: no kept vertical segment, at least one kept segment), the preparation of `STATES` for a whole
+track returns unless the index query itself raises (C08's subject; it does not for an observation inside or outside the extent
+of an index built by the constructor): no `ZeroDivisionError` / `UnboundLocalError` of the projection, no `KeyError` /
+`IndexError` on an edge number. With T2b / T13 (in-range decoder) the whole `__mapOnNetwork` returns. -/
+theorem states_returned_on_built_network {sqrt : α → α} (hs : SqrtSpec sqrt) (fl : α → Int) (eps radius : α)
+    (es : List (EdgeIn α × Node α × Node α)) (late : Nat) (res : Option (α × α)) (margin : α) (net : Net α)
+    (hnd : (es.map (fun x => x.1.id)).Nodup) (hmade : ∀ x ∈ es, x.1.curv = absCurv sqrt x.1.geom)
+    (hgood : ∀ x ∈ es, GoodGeom eps x.1.geom) (hb : buildNet fl es late res margin = .ok net)
+    (track : List (Obs α)) (hidx : ∀ o ∈ track, ∃ c, candidatesOf fl radius net o.pos = .ok c) :
+    ∃ ss, allStatesNet sqrt fl eps radius net track = .ok ss :=
+  allStatesNet_total hs fl eps radius es late res margin net hnd hmade hgood hb track hidx
+
+/-- T25b `states_returned_on_built_network_3d`: T25 with altitudes — regularity is that of the planimetric geometries. -/
+theorem states_returned_on_built_network_3d {sqrt : α → α} (hs : SqrtSpec sqrt) (fl : α → Int) (eps radius : α)
+    (es : List (EdgeIn3 α × Node3 α × Node3 α)) (late : Nat) (res : Option (α × α)) (margin : α) (net : Net3 α)
+    (hnd : (es.map (fun x => x.1.id)).Nodup) (hmade : ∀ x ∈ es, x.1.curv = absCurv3 sqrt x.1.geom)
+    (hgood : ∀ x ∈ es, GoodGeom eps (x.1.geom.map xy)) (hb : buildNet3 fl es late res margin = .ok net)
+    (track : List (Obs3 α)) (hidx : ∀ o ∈ track, ∃ c, candidatesOf3 fl radius net o.pos = .ok c) :
+    ∃ ss, allStatesNet3 sqrt fl eps radius net track = .ok ss := by
+  have hflat := buildNet3_flat fl es late res margin
+  rw [hb] at hflat
+  have hb' : buildNet fl (es.map (fun x => (flatEI x.1, flatNode x.2.1, flatNode x.2.2))) late res margin = .ok (flatNet net) :=
+    hflat.symm
+  obtain ⟨ss, hss⟩ := allStatesNet_total hs fl eps radius _ late res margin (flatNet net)
+    (by rw [List.map_map]; exact hnd)
+    (by
+      intro x hx
+      obtain ⟨y, hy, rfl⟩ := List.mem_map.mp hx
+      show y.1.curv = absCurv sqrt (y.1.geom.map xy)
+      rw [← absCurv3_eq]; exact hmade y hy)
+    (by
+      intro x hx
+      obtain ⟨y, hy, rfl⟩ := List.mem_map.mp hx
+      exact hgood y hy)
+    hb' (track.map flatO)
+    (by
+      intro o ho
+      obtain ⟨o3, ho3, rfl⟩ := List.mem_map.mp ho
+      obtain ⟨c, hc⟩ := hidx o3 ho3
+      exact ⟨c, by rw [← hc, candidatesOf3_flat]; rfl⟩)
+  have := allStatesNet3_flat sqrt fl eps radius net track
+  rw [hss] at this
+  cases h3 : allStatesNet3 sqrt fl eps radius net track with
+  | error e => rw [h3] at this; cases this
+  | ok l3 => exact ⟨l3, rfl⟩
 
 /-- non-vacuity: the oblique 3-vertex geometry of `demoEdges` is `GoodGeom` (with the driver's threshold replaced by 1) -/
 example : GoodGeom (1 : Rat) [(8, 1), (11, 5), (15, 5)] := by
